@@ -190,7 +190,7 @@ func Verif_C09_DebScripts() {
 	mt := time.Unix(1500000000, 0).UTC()
 	var body [7][]byte
 	var set [7]bool
-	nlen := v.Bound("C09.len", 2, 4) + 1
+	nlen := v.Bound("C09.len", 2, 6) + 1
 	base := v.NondetChoice("script.len", nlen) // one fork; the slots get different lengths (incl. empty)
 	for i, slot := range verifDebSlots {
 		set[i] = v.NondetBool("has." + slot)
